@@ -60,6 +60,8 @@ def build(rng):
             stxt = ' ' + size_txt((lo, hi))
         elif use == 'opt':
             opt = True
+        elif use == 'default' and kind == 'NumericString':
+            opt = True          # a number-like cstring DEFAULT is the recorded finding C01-numeric-cstring-default: not this family's business
         elif use == 'default':
             default = g.value(t, for_default=True)
         elif use == 'tag' and not auto:
